@@ -376,7 +376,8 @@ PLUGS = {
                 conv_stream(seed + 1, sizes(tier, 300, 3000), 'build', []) + twin_stream(seed, sizes(tier, 150, 2000)) +
                 gen.scenarios_tuplelayout(seed, sizes(tier, 300, 4000)) +
                 with_oracles(gen.scenarios_tagged(seed + 4, sizes(tier, 400, 6000)), [], op='from_data') +
-                gen.scenarios_unsupported(seed, sizes(tier, 200, 2000)) + [dict(sc, oracles=[]) for sc in matrix_stream(seed + 1)],
+                gen.scenarios_unsupported(seed, sizes(tier, 200, 2000)) + [dict(sc, oracles=[]) for sc in matrix_stream(seed + 1)] +
+                gen.scenarios_vol(seed, sizes(tier, 200, 3000), op='from_data'),
                 project=proj_verdict_value, oracles=[], disagreement_is_failure=True),
     'C02': dict(streams=lambda seed, tier: [dict(sc, same_builtin_handler=['int', 'float', 'str', 'bytes', 'complex', 'bool'][k % 6], oracles=['c02h'])
                                             for k, sc in enumerate(matrix_stream(seed))] + conv_stream(seed, sizes(tier, 500, 10000), 'from_data', []) +
@@ -388,7 +389,8 @@ PLUGS = {
                 with_oracles(gen.scenarios_tuplelayout(seed, sizes(tier, 500, 8000), op='try_collect'), ['c03']) +
                 with_oracles(gen.scenarios_tagged(seed + 4, sizes(tier, 500, 8000)), ['c03'], op='try_collect') +
                 with_oracles(gen.scenarios_inherited_hook(seed, sizes(tier, 300, 4000)), ['c03']) +
-                with_oracles(gen.scenarios_boost(seed, sizes(tier, 150, 2000), op='try_collect'), ['c03']),
+                with_oracles(gen.scenarios_boost(seed, sizes(tier, 150, 2000), op='try_collect'), ['c03']) +
+                with_oracles(gen.scenarios_vol(seed, sizes(tier, 200, 3000), op='try_collect'), ['c03']),
                 project=proj_try_collect, oracles=['c03'], disagreement_is_failure=False),
     'C04': dict(streams=lambda seed, tier: conv_stream(seed, sizes(tier, 1500, 30000), 'from_data', ['c04']) +
                 [dict(s, oracles=['c04']) for s in matrix_stream(seed)] +
@@ -397,28 +399,33 @@ PLUGS = {
                 with_oracles(gen.scenarios_cond(seed, sizes(tier, 500, 8000)), ['c04']) +
                 with_oracles(gen.scenarios_tagged(seed, sizes(tier, 600, 8000)), ['c04'], op='from_data') +
                 with_oracles(gen.scenarios_unsupported(seed, sizes(tier, 300, 3000)), ['c04']) +
-                with_oracles(gen.scenarios_inherited_hook(seed, sizes(tier, 200, 3000), op='from_data'), ['c04']),
+                with_oracles(gen.scenarios_inherited_hook(seed, sizes(tier, 200, 3000), op='from_data'), ['c04']) +
+                with_oracles(gen.scenarios_vol(seed, sizes(tier, 200, 3000), op='from_data'), ['c04']),
                 project=proj_verdict_value, oracles=['c04'], disagreement_is_failure=False),
     'C05': dict(streams=lambda seed, tier: valid_stream(seed, sizes(tier, 2000, 30000), 'roundtrip') + gen.scenarios_union_history(seed, sizes(tier, 250, 3000)) +
                 [dict(s, op='roundtrip') for s in gen.scenarios_tuplelayout(seed, sizes(tier, 400, 6000))] +
                 [dict(s, op='roundtrip') for s in gen.scenarios_tagged(seed + 4, sizes(tier, 500, 8000))] +
-                gen.scenarios_union_boundary(seed, sizes(tier, 200, 3000), ops=('roundtrip',)),
+                gen.scenarios_union_boundary(seed, sizes(tier, 200, 3000), ops=('roundtrip',)) +
+                gen.scenarios_vol(seed, sizes(tier, 200, 3000), op='roundtrip'),
                 project=proj_full, oracles=[], disagreement_is_failure=True, post_oracle=rt_oracle),
     'C06': dict(streams=lambda seed, tier: valid_stream(seed, sizes(tier, 2000, 30000), 'convert2', history=0.4) + gen.scenarios_union_history(seed, sizes(tier, 300, 4000), op='convert2') +
                 [dict(s, op='convert2') for s in gen.scenarios_tuplelayout(seed, sizes(tier, 500, 8000))] +
                 twin_stream(seed, sizes(tier, 100, 1500), op='convert2') +
                 [dict(sc, op='convert2') for sc in gen.scenarios_tagged(seed + 4, sizes(tier, 500, 8000))] +
-                gen.scenarios_union_boundary(seed, sizes(tier, 250, 3000), ops=('convert2',)),
+                gen.scenarios_union_boundary(seed, sizes(tier, 250, 3000), ops=('convert2',)) +
+                gen.scenarios_vol(seed, sizes(tier, 200, 3000), op='convert2'),
                 project=proj_full, oracles=[], disagreement_is_failure=True, post_oracle=rt_oracle),
     'C07': dict(streams=lambda seed, tier: conv_stream(seed, sizes(tier, 1500, 30000), 'try_collect', ['c07']) +
                 with_oracles(gen.scenarios_special_unions(seed, sizes(tier, 400, 5000), op='try_collect'), ['c07']) +
                 with_oracles(gen.scenarios_shapes(seed, sizes(tier, 800, 12000), op='try_collect'), ['c07']) +
                 with_oracles(gen.scenarios_tuplelayout(seed, sizes(tier, 500, 8000), op='try_collect'), ['c07']) +
-                with_oracles(gen.scenarios_boost(seed, sizes(tier, 150, 2000), op='try_collect'), ['c07']),
+                with_oracles(gen.scenarios_boost(seed, sizes(tier, 150, 2000), op='try_collect'), ['c07']) +
+                with_oracles(gen.scenarios_vol(seed, sizes(tier, 200, 3000), op='try_collect'), ['c07']),
                 project=proj_full, oracles=['c07'], disagreement_is_failure=True, decided_by=['c07']),
     'C08': dict(streams=lambda seed, tier: conv_stream(seed, sizes(tier, 1500, 30000), 'render', ['c08']) +
                 with_oracles(gen.scenarios_shapes(seed, sizes(tier, 1000, 15000), op='render'), ['c08']) +
-                with_oracles(gen.scenarios_boost(seed, sizes(tier, 200, 2500), op='render'), ['c08']),
+                with_oracles(gen.scenarios_boost(seed, sizes(tier, 200, 2500), op='render'), ['c08']) +
+                with_oracles(gen.scenarios_vol(seed, sizes(tier, 200, 3000), op='render'), ['c08']),
                 project=proj_full, oracles=['c08'], disagreement_is_failure=True),
     'C09': dict(streams=lambda seed, tier: conv_stream(seed, sizes(tier, 700, 10000), 'from_data', []) +
                 conv_stream(seed + 1, sizes(tier, 400, 10000), 'try_collect', []) +
@@ -437,7 +444,8 @@ PLUGS = {
                 [sc for sc in gen.scenarios_tagged(seed + 4, sizes(tier, 1200, 15000)) if 'union' in sc['ty']] +
                 with_oracles(gen.scenarios_special_unions(seed, sizes(tier, 400, 5000)), ['c11']) +
                 with_oracles(gen.scenarios_union_boundary(seed, sizes(tier, 300, 4000), ops=('from_data', 'roundtrip')), ['c11']) +
-                gen.scenarios_unionnorm(seed, sizes(tier, 400, 5000)),
+                gen.scenarios_unionnorm(seed, sizes(tier, 400, 5000)) +
+                with_oracles(gen.scenarios_vol(seed, sizes(tier, 200, 3000), op='from_data'), ['c11']),
                 project=proj_verdict_value, oracles=['c11'], disagreement_is_failure=True),
     'C12': dict(streams=lambda seed, tier: gen.scenarios_tagged(seed, sizes(tier, 1500, 25000)) +
                 with_defaultdicts(gen.scenarios_tagged(seed + 9, sizes(tier, 600, 8000)), seed),
@@ -463,6 +471,7 @@ PLUGS = {
                 gen.scenarios_generic_nested(seed, sizes(tier, 300, 4000)) + gen.scenarios_c3(seed, sizes(tier, 400, 6000)),
                 project=proj_full, oracles=['c17'], disagreement_is_failure=True),
     'C18': dict(streams=lambda seed, tier: gen.scenarios_handlers(seed, sizes(tier, 2500, 30000)) + gen.scenarios_reach(seed, sizes(tier, 500, 6000)) +
+                gen.scenarios_registered(seed, sizes(tier, 500, 6000)) +
                 [s for s in gen.scenarios_process(seed, sizes(tier, 600, 6000), generic_share=0.0) if 'custom' in json.dumps(s['decls'])],
                 project=proj_full, oracles=['c18'], disagreement_is_failure=True),
     'C19': dict(streams=lambda seed, tier: gen.scenarios_io(seed, sizes(tier, 2500, 30000)),
